@@ -404,8 +404,8 @@ class ExcelInPython:
             return "#NUM!"
         match mode:
             case 'Y':
-                return (date_end - date_start).days // (366 if calendar.isleap(date_start.year) and
-                                                        date_start.month <= 2 else 365)
+                return (12 * (date_end.year - date_start.year) + (date_end.month - date_start.month)
+                        - (1 if date_start.day > date_end.day else 0)) // 12
             case 'M':
                 result = 12 * (date_end.year - date_start.year) + (date_end.month - date_start.month)
                 if date_start.day > date_end.day:
@@ -421,9 +421,8 @@ class ExcelInPython:
                     return calendar.monthrange(prev_month_date.year, prev_month_date.month)[1] - (
                         date_start.day - date_end.day)
             case 'YM':
-                return (12 if date_start.month > date_end.month and date_end.year > date_start.year else 0) \
-                    + (date_end.month - date_start.month) \
-                    + (-1 if date_start.day > date_end.day else 0)
+                return (12 * (date_end.year - date_start.year) + (date_end.month - date_start.month)
+                        - (1 if date_start.day > date_end.day else 0)) % 12
             case 'YD':
                 return (date_end - date_start).days % (366 if calendar.isleap(date_start.year) and
                                                        date_start.month <= 2 else 365)
